@@ -92,7 +92,7 @@ def gen_presentation(rng, sc, identity=False):
     n = len(sc["rules"])
     if identity:
         return {"colmap": NAME_POOLS[0], "uid": "ident", "uid_name": "unique_id", "row_seed": None, "table_order": list(range(len(sc["tables"]))),
-                "rule_order": list(range(n)), "salting": {}, "mat_tf": True, "mat_bp": True, "debug": False, "threads": None,
+                "rule_order": list(range(n)), "salting": {}, "mat_tf": True, "mat_bp": True, "debug": [], "threads": None, "col_order_seed": None,
                 "one_table": False, "block_on": True}
     order = list(range(n))
     rng.shuffle(order)
@@ -103,8 +103,13 @@ def gen_presentation(rng, sc, identity=False):
         "uid_name": rng.choice(["unique_id", "ID", "record id"]),
         "row_seed": rng.randint(0, 10**6), "table_order": torder, "rule_order": order,
         "salting": {k: rng.choice([2, 3, 7]) for k in range(n) if rng.random() < 0.3},
-        "mat_tf": rng.random() < 0.5, "mat_bp": rng.random() < 0.5, "debug": rng.random() < 0.15,
+        "mat_tf": rng.random() < 0.5, "mat_bp": rng.random() < 0.5,
+        # debug mode may be on for the whole job or toggled for single steps
+        "debug": (["train", "predict", "cluster", "predict2"] if rng.random() < 0.1 else
+                  sorted(rng.sample(["train", "predict", "cluster", "predict2"], rng.choice([1, 2]))) if rng.random() < 0.2 else []),
         "threads": rng.choice([None, 1, 2, 8, 16]),
+        # every input table may list its columns in its own order
+        "col_order_seed": rng.choice([None, rng.randint(0, 10**6)]),
         "one_table": len(sc["tables"]) > 1 and sc["link_type"] == "link_only" and rng.random() < 0.3,
         "block_on": rng.random() < 0.5,
     }
@@ -141,6 +146,10 @@ def run_pipeline(sc, p):
         d = pd.DataFrame(recs)
         for c in COLS:
             d[cm[c]] = d[cm[c]].astype("string")
+        if p.get("col_order_seed") is not None:
+            cols = list(d.columns)
+            random.Random(p["col_order_seed"] + 7 * ti).shuffle(cols)
+            d = d[cols]
         dfs.append(d)
     aliases = [sc["names"][ti] for ti in p["table_order"]]
     if p["one_table"]:
@@ -169,8 +178,7 @@ def run_pipeline(sc, p):
     lk = su.linker(dfs, s, "duckdb", aliases=aliases if len(dfs) > 1 else None, api=DuckDBAPI(connection=con))
     sink = io.StringIO()
     with contextlib.redirect_stdout(sink):
-        if p["debug"]:
-            lk._debug_mode = True
+        lk._debug_mode = "train" in p["debug"]
         if sc["train"]:
             lk.training.estimate_u_using_random_sampling(max_pairs=1e7, seed=3)
             try:
@@ -180,9 +188,15 @@ def run_pipeline(sc, p):
             except Exception as e:  # a training block without pairs raises in every presentation alike
                 if "resulted in no record pairs" not in str(e) and "no record pairs" not in str(e):
                     raise
+        lk._debug_mode = "predict" in p["debug"]
         pred = lk.inference.predict(materialise_after_computing_term_frequencies=p["mat_tf"], materialise_blocked_pairs=p["mat_bp"])
         prs = su.records(pred)
+        lk._debug_mode = "cluster" in p["debug"]
         clus = su.records(lk.clustering.cluster_pairwise_predictions_at_threshold(pred, threshold_match_probability=sc["threshold"]))
+        # a second prediction with a threshold, after the clustering step
+        lk._debug_mode = "predict2" in p["debug"]
+        prs2 = su.records(lk.inference.predict(threshold_match_probability=sc["threshold"]))
+        lk._debug_mode = False
         model = lk.misc.save_model_to_json()
     su.quiet()
     first = sc["names"][0]
@@ -203,7 +217,12 @@ def run_pipeline(sc, p):
         for lv in c["comparison_levels"]:
             params.append((lv.get("m_probability"), lv.get("u_probability")))
     params.append((model["probability_two_random_records_match"], None))
-    return {"pairs": pairs, "partition": partition, "params": params, "n_pred": len(prs)}
+    pairs2 = set()
+    for x in prs2:
+        a = back[(x.get("source_dataset_l", first), str(x[uidn + "_l"]))]
+        b = back[(x.get("source_dataset_r", first), str(x[uidn + "_r"]))]
+        pairs2.add((tuple(sorted([a, b])), round(x["match_weight"], 6)))
+    return {"pairs": pairs, "partition": partition, "params": params, "n_pred": len(prs), "pairs2": sorted(pairs2), "n_pred2": len(prs2)}
 
 
 def outcome_matrices(sc):
@@ -238,7 +257,7 @@ def safe_run(sc, p):
         return run_pipeline(sc, p)
     except Exception as e:  # the canonical run succeeded, so raising is itself a difference
         su.quiet()
-        return {"error": f"{type(e).__name__}: {str(e)[-300:]}", "pairs": {}, "partition": [], "params": [], "n_pred": 0}
+        return {"error": f"{type(e).__name__}: {str(e)[-300:]}", "pairs": {}, "partition": [], "params": [], "n_pred": 0, "pairs2": [], "n_pred2": 0}
 
 
 def compare_runs(base, out):
@@ -257,6 +276,8 @@ def compare_runs(base, out):
             diffs.append(("gamma", k, g0, g1))
         elif not close(w0, w1):
             diffs.append(("match_weight", k, w0, w1))
+    if base.get("pairs2") != out.get("pairs2") or base.get("n_pred2") != out.get("n_pred2"):
+        diffs.append(("thresholded_predict_after_clustering", base.get("n_pred2"), out.get("n_pred2")))
     if base["partition"] != out["partition"]:
         diffs.append(("partition", base["partition"], out["partition"]))
     for i, (a, b) in enumerate(zip(base["params"], out["params"])):
